@@ -365,9 +365,51 @@ class _Functional(ast.NodeTransformer):
         return node
 
 
+class _FuseGen(ast.NodeTransformer):
+    """(E(v) for v in (F(w) for w in IT if C))  ->  (E(F(w)) for w in IT if C)   (also for tuple targets bound to a tuple element)"""
+
+    def _fuse(self, node):
+        if len(node.generators) != 1:
+            return node
+        g = node.generators[0]
+        inner = g.iter
+        if not (isinstance(inner, (ast.GeneratorExp, ast.ListComp)) and len(inner.generators) == 1 and not g.is_async):
+            return node
+        m = None
+        if isinstance(g.target, ast.Name):
+            m = {g.target.id: inner.elt}
+        elif isinstance(g.target, ast.Tuple) and isinstance(inner.elt, ast.Tuple) and len(g.target.elts) == len(inner.elt.elts) \
+                and all(isinstance(e, ast.Name) for e in g.target.elts):
+            m = {t.id: e for t, e in zip(g.target.elts, inner.elt.elts)}
+        if m is None:
+            return node
+        inner_names = {x.id for x in ast.walk(inner.generators[0].target) if isinstance(x, ast.Name)}
+        outer_used = {x.id for x in ast.walk(node.elt) if isinstance(x, ast.Name)} | {x.id for c in g.ifs for x in ast.walk(c) if isinstance(x, ast.Name)}
+        if inner_names & (outer_used - set(m)):
+            return node   # the inner loop variable would capture a name of the outer element
+
+        class S(ast.NodeTransformer):
+            def visit_Name(self_, x):
+                return copy.deepcopy(m[x.id]) if x.id in m and isinstance(x.ctx, ast.Load) else x
+        new_elt = S().visit(copy.deepcopy(node.elt))
+        new_ifs = list(inner.generators[0].ifs) + [S().visit(copy.deepcopy(c)) for c in g.ifs]
+        comp = ast.comprehension(target=inner.generators[0].target, iter=inner.generators[0].iter, ifs=new_ifs, is_async=0)
+        if isinstance(node, ast.DictComp):
+            return node
+        fused = type(node)(elt=new_elt, generators=[comp])
+        return self._fuse(ast.copy_location(fused, node))
+
+    def visit_GeneratorExp(self, node):
+        self.generic_visit(node)
+        return self._fuse(node)
+
+    visit_ListComp = visit_SetComp = visit_GeneratorExp
+
+
 def desugar(fnode):
     f = copy.deepcopy(fnode)
     f = _Functional().visit(f)
+    f = _FuseGen().visit(f)
     ast.fix_missing_locations(f)
     d = _D()
     d.lits = literal_bindings(f)
